@@ -6,6 +6,7 @@ package main
 
 import (
 	"bytes"
+	"encoding/json"
 	"fmt"
 	"math/big"
 	"reflect"
@@ -25,6 +26,7 @@ import (
 	"github.com/nspcc-dev/neo-go/pkg/neotest"
 	"github.com/nspcc-dev/neo-go/pkg/neotest/chain"
 	"github.com/nspcc-dev/neo-go/pkg/smartcontract"
+	"github.com/nspcc-dev/neo-go/pkg/smartcontract/callflag"
 	"github.com/nspcc-dev/neo-go/pkg/smartcontract/manifest"
 	"github.com/nspcc-dev/neo-go/pkg/smartcontract/nef"
 	"github.com/nspcc-dev/neo-go/pkg/util"
@@ -144,7 +146,8 @@ func c04NewChain() *c04Chain {
 		c.senders = append(c.senders, sg)
 		env.senders = append(env.senders, sg.ScriptHash())
 	}
-	script, runOff, payOff := c04Interpreter(env.gas, env.policy, env.neo)
+	script, runOff, payOff := c04Interpreter(env.gas, env.policy, env.neo, bc.ManagementContractHash())
+	var manifests []*manifest.Manifest
 	config.Version = "0.0.0"
 	for i := 0; i < c04NContracts; i++ {
 		ne, err := nef.NewFile(script)
@@ -167,7 +170,35 @@ func c04NewChain() *c04Chain {
 		ct := &neotest.Contract{Hash: h, NEF: ne, Manifest: m}
 		e.DeployContract(t, ct, nil)
 		env.contracts = append(env.contracts, h)
+		manifests = append(manifests, m)
 		c.ids = append(c.ids, bc.GetContractState(h).ID)
+	}
+	// method tokens need the callees' hashes, which depend on the NEFs: the contracts update themselves to the same
+	// script with 48 tokens each (callee 0..2 x requested flags 0..15 -> run/1, with return value)
+	ne, err := nef.NewFile(script)
+	if err != nil {
+		panic(err)
+	}
+	for ci := 0; ci < c04NContracts; ci++ {
+		for f := 0; f < 16; f++ {
+			ne.Tokens = append(ne.Tokens, nef.MethodToken{Hash: env.contracts[ci], Method: "run", ParamCount: 1, HasReturn: true, CallFlag: callflag.CallFlag(f)})
+		}
+	}
+	ne.Checksum = ne.CalculateChecksum()
+	neb, err := ne.Bytes()
+	if err != nil {
+		panic(err)
+	}
+	for i := 0; i < c04NContracts; i++ {
+		mb, err := json.Marshal(manifests[i])
+		if err != nil {
+			panic(err)
+		}
+		up := &c04Node{Op: "call", C: i, Flags: 15, Body: &c04Node{Op: "update", Raw: [][]byte{neb, mb}}}
+		c.mustHalt(c.newTx(env.entryScript(up), 50_0000_0000))
+		if n := len(bc.GetContractState(env.contracts[i]).NEF.Tokens); n != c04NContracts*16 {
+			panic(fmt.Sprintf("c04: contract %d has %d method tokens after the update", i, n))
+		}
 	}
 	for i := 0; i < c04NPlain; i++ {
 		env.plain = append(env.plain, c04PlainAccount(i))
